@@ -21,8 +21,10 @@ def splitComma : Bytes → List Bytes
 /-- remove surrounding `isspace` bytes -/
 def strip (x : Bytes) : Bytes := rtrim (ltrim x)
 
-/-- the non-empty members of a comma list (RFC 9110 §5.6.1.2: empty elements are ignored) -/
-def elements (v : Bytes) : List Bytes := ((splitComma v).map strip).filter (fun x => !x.isEmpty)
+/-- The members of a comma list, trimmed. Empty members — nothing or only the optional whitespace that separates members
+(SP HT, and CR LF which cannot occur in a field line) — are ignored (RFC 9110 §5.6.1.2); every other member counts,
+so that a member made of other white space only (VT, FF) is a member without a value, i.e. an invalid one. -/
+def elements (v : Bytes) : List Bytes := ((splitComma v).filter (fun m => !m.all isListLead)).map strip
 
 /-- `1*DIGIT` denoting a number that fits `int64_t` -/
 def decimalValue (x : Bytes) : Option Nat :=
@@ -33,8 +35,9 @@ value has a comma, the whole value otherwise -/
 def fieldValues (relaxed : Bool) (v : Bytes) : List Bytes :=
   if relaxed && v.contains 44 then elements v else [strip v]
 
-/-- The region outside of which `checkList` is wrong (finding C26-list-truncated): every list member that is blank
-consists only of the bytes `strListGetItem` skips between items (SP HT CR LF), i.e. no member is VT/FF-only. -/
+/-- The region outside of which `checkList` is wrong (finding C26-list-truncated): every list member that is blank after
+trimming consists only of the bytes `strListGetItem` skips between items (SP HT CR LF), i.e. no member is made of VT/FF
+(and separators) only. -/
 def BlankOk (v : Bytes) : Prop := ∀ e ∈ splitComma v, strip e = [] → e.all isListLead = true
 
 instance (v : Bytes) : Decidable (BlankOk v) := by unfold BlankOk; infer_instance
